@@ -24,7 +24,8 @@ CONSTANTS Conns,            \* client connections (model values)
           HandlerRecover,   \* TRUE: per-request goroutines recover panics
           ReadyOnlyIfListening, \* TRUE: listenerReady is set only when net.Listen succeeded
           ListenFails,      \* TRUE: net.Listen fails (port in use, malformed address) in this configuration
-          AcceptErrorsFatal \* TRUE: a temporary Accept error (EMFILE) makes Run return
+          AcceptErrorsFatal,\* TRUE: a temporary Accept error (EMFILE) makes Run return
+          TLSMode           \* "none" | "server" (TLS listener, server authentication) | "mtls" (client certificate required and verified)
 
 VARIABLES
   run,        \* pc of the Run goroutine: "idle" | "prelisten" | "loop" | "accept" | "register" | "returned"
@@ -50,18 +51,21 @@ VARIABLES
   onclose,    \* [Conns -> number of OnClose calls]
   afterUnbind,\* [Conns -> BOOLEAN] an Unbind has been read on c
   acceptFault,\* "none" | "pending" (the next Accept fails with a temporary error: descriptor exhaustion) | "done" (at most one per run)
+  ckind,      \* [Conns -> client kind: "valid" | "silent" | "plaintext" | "garbage" | "nocert" | "wrongca"] (relevant when TLSMode # "none")
+  tls,        \* [Conns -> "plain" | "tls"] transport of the connection (TLS listener: after the handshake; StartTLS: after the upgrade)
   nr,         \* [Conns -> BOOLEAN] the client has stopped reading: writes to it block once the buffers are full
   dispatched  \* history: [Conns -> Seq(<<kind, Request.ID>>)] what the read loop handed to handlers, in order
 
-vars == <<run, runArg, runRes, listener, ready, ctxDone, connWg, nextID, alive, muR, stop, acceptFault, net, inq, sent, nr, cpc, cid, nreq, reqWg, hs, sock, onclose, afterUnbind, dispatched>>
+vars == <<run, runArg, runRes, listener, ready, ctxDone, connWg, nextID, alive, muR, stop, acceptFault, net, inq, sent, ckind, nr, cpc, tls, cid, nreq, reqWg, hs, sock, onclose, afterUnbind, dispatched>>
 srvVars == <<run, runArg, runRes, listener, ready, ctxDone, connWg, nextID, alive, muR, stop, acceptFault>>
-cliVars == <<net, inq, sent, nr>>
-conVars == <<cpc, cid, nreq, reqWg, hs, sock, onclose, afterUnbind, dispatched>>
+cliVars == <<net, inq, sent, ckind, nr>>
+conVars == <<cpc, tls, cid, nreq, reqWg, hs, sock, onclose, afterUnbind, dispatched>>
 
 Init ==
   /\ run = "idle" /\ runArg = "none" /\ runRes = "none" /\ listener = "none" /\ ready = FALSE /\ ctxDone = FALSE
   /\ connWg = 0 /\ nextID = 0 /\ alive = TRUE /\ muR = {} /\ stop = [s \in Stoppers |-> "idle"] /\ acceptFault = "none"
   /\ net = [c \in Conns |-> "none"] /\ inq = [c \in Conns |-> <<>>] /\ sent = [c \in Conns |-> 0] /\ nr = [c \in Conns |-> FALSE]
+  /\ ckind = [c \in Conns |-> "valid"] /\ tls = [c \in Conns |-> "plain"]
   /\ cpc = [c \in Conns |-> "none"] /\ cid = [c \in Conns |-> 0] /\ nreq = [c \in Conns |-> 0]
   /\ reqWg = [c \in Conns |-> 0] /\ hs = [c \in Conns |-> [i \in 1..(MaxReq + 1) |-> "none"]]
   /\ sock = [c \in Conns |-> "none"] /\ onclose = [c \in Conns |-> 0]
@@ -100,7 +104,7 @@ RunAccept(c) ==
   /\ run = "accept" /\ listener = "open" /\ net[c] = "backlog" /\ acceptFault # "pending"
   /\ net' = [net EXCEPT ![c] = "open"] /\ sock' = [sock EXCEPT ![c] = "open"]
   /\ run' = "register" /\ runArg' = c
-  /\ UNCHANGED <<runRes, listener, ready, ctxDone, connWg, nextID, alive, muR, stop, acceptFault, inq, sent, nr, cpc, cid, nreq, reqWg, hs, onclose, afterUnbind, dispatched>>
+  /\ UNCHANGED <<runRes, listener, ready, ctxDone, connWg, nextID, alive, muR, stop, acceptFault, inq, sent, ckind, nr, cpc, tls, cid, nreq, reqWg, hs, onclose, afterUnbind, dispatched>>
 \* registration: under Server.mu with a re-check of the context (or, in the variant, a bare connWg.Add(1))
 RunRegister ==
   /\ run = "register"
@@ -112,7 +116,7 @@ RunRegister ==
        ELSE /\ connWg' = connWg + 1 /\ cpc' = [cpc EXCEPT ![runArg] = "head"] /\ cid' = [cid EXCEPT ![runArg] = nextID]
             /\ UNCHANGED <<sock, onclose>>
   /\ run' = "loop" /\ runArg' = "none"
-  /\ UNCHANGED <<runRes, listener, ready, ctxDone, nextID, alive, muR, stop, acceptFault, cliVars, nreq, reqWg, hs, afterUnbind, dispatched>>
+  /\ UNCHANGED <<runRes, listener, ready, ctxDone, nextID, alive, muR, stop, acceptFault, cliVars, tls, nreq, reqWg, hs, afterUnbind, dispatched>>
 
 --------------------------------------------------------------------------
 (* Stop callers *)
@@ -128,16 +132,19 @@ StopWait(s) == /\ stop[s] = "wait" /\ connWg = 0 /\ stop' = [stop EXCEPT ![s] = 
 
 --------------------------------------------------------------------------
 (* clients (adversarial: no fairness) *)
-Dial(c) == /\ net[c] = "none" /\ listener = "open" /\ net' = [net EXCEPT ![c] = "backlog"]
-           /\ UNCHANGED <<srvVars, inq, sent, nr, conVars>>
+\* without a TLS listener the only difference a client can make is whether it answers a StartTLS upgrade ("silent" does not)
+ClientKinds == IF TLSMode = "none" THEN {"valid", "silent"} ELSE {"valid", "silent", "plaintext", "garbage", "nocert", "wrongca"}
+DialAs(c, k) == /\ net[c] = "none" /\ listener = "open" /\ net' = [net EXCEPT ![c] = "backlog"] /\ ckind' = [ckind EXCEPT ![c] = k]
+                /\ UNCHANGED <<srvVars, inq, sent, nr, conVars>>
+Dial(c) == DialAs(c, "valid")
 Send(c, k) == /\ net[c] \in {"backlog", "open"} /\ sent[c] < MaxReq
               /\ inq' = [inq EXCEPT ![c] = Append(@, k)] /\ sent' = [sent EXCEPT ![c] = @ + 1]
-              /\ UNCHANGED <<srvVars, net, nr, conVars>>
+              /\ UNCHANGED <<srvVars, net, ckind, nr, conVars>>
 \* the client stops reading its responses (a handler writing a large response then blocks in Write)
 StopReading(c) == /\ net[c] = "open" /\ ~nr[c] /\ nr' = [nr EXCEPT ![c] = TRUE]
-                  /\ UNCHANGED <<srvVars, net, inq, sent, conVars>>
+                  /\ UNCHANGED <<srvVars, net, inq, sent, ckind, conVars>>
 ClientClose(c) == /\ net[c] = "open" /\ net' = [net EXCEPT ![c] = "cclosed"]
-                  /\ UNCHANGED <<srvVars, inq, sent, nr, conVars>>
+                  /\ UNCHANGED <<srvVars, inq, sent, ckind, nr, conVars>>
 
 --------------------------------------------------------------------------
 (* connection goroutine: conn.serveRequests *)
@@ -145,12 +152,23 @@ ClientClose(c) == /\ net[c] = "open" /\ net' = [net EXCEPT ![c] = "cclosed"]
 ConnHead(c) ==
   /\ cpc[c] = "head" /\ nreq' = [nreq EXCEPT ![c] = @ + 1]
   /\ cpc' = [cpc EXCEPT ![c] = IF ctxDone THEN "exit" ELSE "read"]
-  /\ UNCHANGED <<srvVars, cliVars, cid, reqWg, hs, sock, onclose, afterUnbind, dispatched>>
-NothingToRead(c) == IF inq[c] = <<>> THEN TRUE ELSE Head(inq[c]) = "partial"
+  /\ UNCHANGED <<srvVars, cliVars, tls, cid, reqWg, hs, sock, onclose, afterUnbind, dispatched>>
+\* half a frame keeps the reader waiting - unless more bytes follow: then it reads a frame made of both, which does not parse
+NothingToRead(c) == IF inq[c] = <<>> \/ (TLSMode # "none" /\ tls[c] = "plain") THEN TRUE ELSE (Head(inq[c]) = "partial" /\ Len(inq[c]) = 1)
 \* blocked in the BER reader until a frame, EOF or (WakeOnCancel) the shutdown deadline
+\* TLS listener: the first read performs the handshake; what happens depends on what the client does
+NeedsHandshake(c) == TLSMode # "none" /\ tls[c] = "plain"
+HandshakeOK(c) == ckind[c] = "valid" \/ (TLSMode = "server" /\ ckind[c] \in {"nocert", "wrongca"})
+\* a silent client, or one that will talk plaintext but has not sent anything yet, keeps the handshake waiting
+HandshakePending(c) == ckind[c] = "silent" \/ (ckind[c] = "plaintext" /\ inq[c] = <<>>)
+ConnHandshake(c) ==
+  /\ cpc[c] = "read" /\ NeedsHandshake(c) /\ ~HandshakePending(c)
+  /\ IF HandshakeOK(c) THEN tls' = [tls EXCEPT ![c] = "tls"] /\ UNCHANGED cpc
+     ELSE cpc' = [cpc EXCEPT ![c] = "exit"] /\ UNCHANGED tls        \* handshake failure is an ordinary read error
+  /\ UNCHANGED <<srvVars, cliVars, cid, nreq, reqWg, hs, sock, onclose, afterUnbind, dispatched>>
 ConnRead(c) ==
-  /\ cpc[c] = "read"
-  /\ \/ /\ inq[c] # <<>> /\ Head(inq[c]) # "partial"      \* half a frame: the reader keeps waiting for the rest
+  /\ cpc[c] = "read" /\ (NeedsHandshake(c) => HandshakePending(c))
+  /\ \/ /\ ~NothingToRead(c) /\ ~NeedsHandshake(c)
         /\ LET k == Head(inq[c]) IN
            /\ inq' = [inq EXCEPT ![c] = Tail(@)]
            /\ CASE k = "op" -> \* default case: requestsWg.Add(1); go router.serve
@@ -166,58 +184,63 @@ ConnRead(c) ==
                      /\ dispatched' = [dispatched EXCEPT ![c] = Append(@, <<"starttls", nreq[c]>>)]
                      /\ hs' = [hs EXCEPT ![c][nreq[c]] = "inline"]
                      /\ cpc' = [cpc EXCEPT ![c] = "inline"] /\ UNCHANGED <<reqWg, afterUnbind>>
-                [] k = "bad" -> \* malformed / unsupported: error return
+                [] k \in {"bad", "partial"} -> \* malformed / unsupported (or half a frame glued to the next one): error return
                      /\ cpc' = [cpc EXCEPT ![c] = "exit"] /\ UNCHANGED <<reqWg, hs, afterUnbind, dispatched>>
      \/ /\ NothingToRead(c) /\ net[c] = "cclosed"           \* EOF (possibly in the middle of a frame)
         /\ cpc' = [cpc EXCEPT ![c] = "exit"] /\ UNCHANGED <<inq, reqWg, hs, afterUnbind, dispatched>>
      \/ /\ NothingToRead(c) /\ WakeOnCancel /\ ctxDone      \* read deadline: back to the loop head
         /\ cpc' = [cpc EXCEPT ![c] = "head"] /\ UNCHANGED <<inq, reqWg, hs, afterUnbind, dispatched>>
-  /\ UNCHANGED <<srvVars, net, sent, nr, cid, nreq, sock, onclose>>
+  /\ UNCHANGED <<srvVars, net, sent, ckind, nr, tls, cid, nreq, sock, onclose>>
 \* the inline (StartTLS) handler returns
+\* (Request.StartTLS handshakes on the raw connection, then swaps reader and writer; with a client that never
+\* starts the handshake it only returns - with an error - once the shutdown deadline or the client's close ends the wait)
 ConnInlineReturn(c) ==
   /\ cpc[c] = "inline" /\ hs' = [hs EXCEPT ![c][nreq[c]] = "done"] /\ cpc' = [cpc EXCEPT ![c] = "head"]
+  /\ IF TLSMode = "none" /\ ckind[c] = "silent"
+       THEN ((WakeOnCancel /\ ctxDone) \/ net[c] = "cclosed") /\ UNCHANGED tls
+       ELSE tls' = [tls EXCEPT ![c] = "tls"]
   /\ UNCHANGED <<srvVars, cliVars, cid, nreq, reqWg, sock, onclose, afterUnbind, dispatched>>
 \* the inline handler panics: recovered on the connection goroutine, which then ends this connection
 ConnInlinePanic(c) ==
   /\ cpc[c] = "inline" /\ hs' = [hs EXCEPT ![c][nreq[c]] = "done"] /\ cpc' = [cpc EXCEPT ![c] = "exit"]
-  /\ UNCHANGED <<srvVars, cliVars, cid, nreq, reqWg, sock, onclose, afterUnbind, dispatched>>
+  /\ UNCHANGED <<srvVars, cliVars, tls, cid, nreq, reqWg, sock, onclose, afterUnbind, dispatched>>
 \* teardown (the deferred functions of the connection goroutine); order depends on DoneLast
 ConnExit(c) == /\ cpc[c] = "exit" /\ cpc' = [cpc EXCEPT ![c] = IF DoneLast THEN "twait" ELSE "tdone"]
-               /\ UNCHANGED <<srvVars, cliVars, cid, nreq, reqWg, hs, sock, onclose, afterUnbind, dispatched>>
+               /\ UNCHANGED <<srvVars, cliVars, tls, cid, nreq, reqWg, hs, sock, onclose, afterUnbind, dispatched>>
 TDone(c) == /\ cpc[c] = "tdone" /\ connWg' = connWg - 1
             /\ cpc' = [cpc EXCEPT ![c] = IF DoneLast THEN "end" ELSE "twait"]
-            /\ UNCHANGED <<run, runArg, runRes, listener, ready, ctxDone, nextID, alive, muR, stop, acceptFault, cliVars, cid, nreq, reqWg, hs, sock, onclose, afterUnbind, dispatched>>
+            /\ UNCHANGED <<run, runArg, runRes, listener, ready, ctxDone, nextID, alive, muR, stop, acceptFault, cliVars, tls, cid, nreq, reqWg, hs, sock, onclose, afterUnbind, dispatched>>
 TWait(c) == /\ cpc[c] = "twait" /\ reqWg[c] = 0 /\ cpc' = [cpc EXCEPT ![c] = "tclose"]
-            /\ UNCHANGED <<srvVars, cliVars, cid, nreq, reqWg, hs, sock, onclose, afterUnbind, dispatched>>
+            /\ UNCHANGED <<srvVars, cliVars, tls, cid, nreq, reqWg, hs, sock, onclose, afterUnbind, dispatched>>
 TClose(c) == /\ cpc[c] = "tclose" /\ sock' = [sock EXCEPT ![c] = "closed"] /\ cpc' = [cpc EXCEPT ![c] = "tonclose"]
-             /\ UNCHANGED <<srvVars, cliVars, cid, nreq, reqWg, hs, onclose, afterUnbind, dispatched>>
+             /\ UNCHANGED <<srvVars, cliVars, tls, cid, nreq, reqWg, hs, onclose, afterUnbind, dispatched>>
 TOnClose(c) == /\ cpc[c] = "tonclose" /\ onclose' = [onclose EXCEPT ![c] = @ + 1]
                /\ cpc' = [cpc EXCEPT ![c] = IF DoneLast THEN "tdone" ELSE "end"]
-               /\ UNCHANGED <<srvVars, cliVars, cid, nreq, reqWg, hs, sock, afterUnbind, dispatched>>
+               /\ UNCHANGED <<srvVars, cliVars, tls, cid, nreq, reqWg, hs, sock, afterUnbind, dispatched>>
 
 --------------------------------------------------------------------------
 (* handler goroutines: user code decides when they return (Hold / Release are environment actions) *)
 HHold(c, i) == /\ hs[c][i] = "running" /\ hs' = [hs EXCEPT ![c][i] = "held"]
-               /\ UNCHANGED <<srvVars, cliVars, cpc, cid, nreq, reqWg, sock, onclose, afterUnbind, dispatched>>
+               /\ UNCHANGED <<srvVars, cliVars, cpc, tls, cid, nreq, reqWg, sock, onclose, afterUnbind, dispatched>>
 HRelease(c, i) == /\ hs[c][i] = "held" /\ hs' = [hs EXCEPT ![c][i] = "running"]
-                  /\ UNCHANGED <<srvVars, cliVars, cpc, cid, nreq, reqWg, sock, onclose, afterUnbind, dispatched>>
+                  /\ UNCHANGED <<srvVars, cliVars, cpc, tls, cid, nreq, reqWg, sock, onclose, afterUnbind, dispatched>>
 \* (its Write to a client that does not read only ends once the shutdown write deadline fires)
 HReturn(c, i) == /\ hs[c][i] = "running" /\ (nr[c] => (WakeOnCancel /\ ctxDone) \/ net[c] = "cclosed")
                  /\ hs' = [hs EXCEPT ![c][i] = "done"] /\ reqWg' = [reqWg EXCEPT ![c] = @ - 1]
-                 /\ UNCHANGED <<srvVars, cliVars, cpc, cid, nreq, sock, onclose, afterUnbind, dispatched>>
+                 /\ UNCHANGED <<srvVars, cliVars, cpc, tls, cid, nreq, sock, onclose, afterUnbind, dispatched>>
 HPanic(c, i) == /\ hs[c][i] \in {"running", "held"}
                 /\ IF HandlerRecover THEN hs' = [hs EXCEPT ![c][i] = "done"] /\ reqWg' = [reqWg EXCEPT ![c] = @ - 1] /\ UNCHANGED alive
                    ELSE alive' = FALSE /\ UNCHANGED <<hs, reqWg>>
-                /\ UNCHANGED <<run, runArg, runRes, listener, ready, ctxDone, connWg, nextID, muR, stop, acceptFault, cliVars, cpc, cid, nreq, sock, onclose, afterUnbind, dispatched>>
+                /\ UNCHANGED <<run, runArg, runRes, listener, ready, ctxDone, connWg, nextID, muR, stop, acceptFault, cliVars, cpc, tls, cid, nreq, sock, onclose, afterUnbind, dispatched>>
 
 --------------------------------------------------------------------------
 Server == \/ RunListen \/ RunLoopHead \/ RunAcceptClosed \/ RunRegister \/ RunAcceptTempErr
-          \/ \E c \in Conns : RunAccept(c) \/ ConnHead(c) \/ ConnRead(c) \/ ConnInlineReturn(c) \/ ConnExit(c)
+          \/ \E c \in Conns : RunAccept(c) \/ ConnHead(c) \/ ConnHandshake(c) \/ ConnRead(c) \/ ConnInlineReturn(c) \/ ConnExit(c)
                               \/ TDone(c) \/ TWait(c) \/ TClose(c) \/ TOnClose(c)
           \/ \E c \in Conns, i \in 1..(MaxReq + 1) : HReturn(c, i)
           \/ \E s \in Stoppers : StopClose(s) \/ StopCancel(s) \/ StopWait(s)
 Env == \/ RunStart \/ AcceptFault \/ (\E s \in Stoppers : StopBegin(s)) \/ (\E c \in Conns : ConnInlinePanic(c))
-       \/ \E c \in Conns : Dial(c) \/ ClientClose(c) \/ StopReading(c) \/ (\E k \in FrameKinds : Send(c, k))
+       \/ \E c \in Conns : (\E k \in ClientKinds : DialAs(c, k)) \/ ClientClose(c) \/ StopReading(c) \/ (\E k \in FrameKinds : Send(c, k))
        \/ \E c \in Conns, i \in 1..(MaxReq + 1) : HHold(c, i) \/ HRelease(c, i) \/ HPanic(c, i)
 Next == alive /\ (Server \/ Env)
 \* fairness of the server's own steps only: clients and user code (held handlers) may do nothing forever
@@ -263,7 +286,11 @@ EventuallyTornDown == \A c \in Conns : (Accepted(c) /\ net[c] = "cclosed") ~> (o
 
 TypeOK == /\ run \in {"idle", "prelisten", "loop", "accept", "register", "returned"}
           /\ listener \in {"none", "open", "closed"} /\ connWg \in 0..Cardinality(Conns) /\ nextID \in Nat
+\* C18: with TLS configured a handler only ever runs for a connection whose handshake satisfied the configuration
+HandlersOnlyAfterTLS == TLSMode # "none" => \A c \in Conns : (\E i \in Reqs : hs[c][i] # "none") => (tls[c] = "tls" /\ HandshakeOK(c))
+\* C13: no request is read while the StartTLS handler runs (the read loop itself runs it)
+StartTLSAtomic == \A c \in Conns : cpc[c] = "inline" => ~ENABLED ConnRead(c)
 \* C07: a temporary accept failure does not end the server
 KeepsAccepting == (run = "returned" /\ runRes = "error") => ListenFails
-View == <<run, runArg, runRes, listener, ready, ctxDone, connWg, nextID, alive, muR, stop, acceptFault, net, inq, sent, nr, cpc, cid, nreq, reqWg, hs, sock, onclose, afterUnbind>>
+View == <<run, runArg, runRes, listener, ready, ctxDone, connWg, nextID, alive, muR, stop, acceptFault, net, inq, sent, ckind, nr, cpc, tls, cid, nreq, reqWg, hs, sock, onclose, afterUnbind>>
 ==========================================================================
